@@ -12,6 +12,14 @@ theorem sink_movie_file_name____shape_name_attr_safe : safeTbl .attr sink_movie_
 theorem sink_movie_file_name____shape_name_attr_data (s : Str) : ∃ k', lexRun .attr (.normal 0) (s.flatMap (sigma sink_movie_file_name____shape_name)) = some (.normal k', s) :=
   safe_render .attr sink_movie_file_name____shape_name sink_movie_file_name____shape_name_attr_safe s 0 (by omega)
 
+theorem sink_movie_file_extension____shape_name___media_part_name_attr_safe : safeTbl .attr sink_movie_file_extension____shape_name___media_part_name = true := by decide
+theorem sink_movie_file_extension____shape_name___media_part_name_attr_data (s : Str) : ∃ k', lexRun .attr (.normal 0) (s.flatMap (sigma sink_movie_file_extension____shape_name___media_part_name)) = some (.normal k', s) :=
+  safe_render .attr sink_movie_file_extension____shape_name___media_part_name sink_movie_file_extension____shape_name___media_part_name_attr_safe s 0 (by omega)
+
+theorem sink_shape_click_hyperlink_address_shared_by_two_shapes__the_other_one_re_pointed_or_cleared_attr_safe : safeTbl .attr sink_shape_click_hyperlink_address_shared_by_two_shapes__the_other_one_re_pointed_or_cleared = true := by decide
+theorem sink_shape_click_hyperlink_address_shared_by_two_shapes__the_other_one_re_pointed_or_cleared_attr_data (s : Str) : ∃ k', lexRun .attr (.normal 0) (s.flatMap (sigma sink_shape_click_hyperlink_address_shared_by_two_shapes__the_other_one_re_pointed_or_cleared)) = some (.normal k', s) :=
+  safe_render .attr sink_shape_click_hyperlink_address_shared_by_two_shapes__the_other_one_re_pointed_or_cleared sink_shape_click_hyperlink_address_shared_by_two_shapes__the_other_one_re_pointed_or_cleared_attr_safe s 0 (by omega)
+
 theorem sink_placeholder_picture_file_name_____descr_attr_safe : safeTbl .attr sink_placeholder_picture_file_name_____descr = true := by decide
 theorem sink_placeholder_picture_file_name_____descr_attr_data (s : Str) : ∃ k', lexRun .attr (.normal 0) (s.flatMap (sigma sink_placeholder_picture_file_name_____descr)) = some (.normal k', s) :=
   safe_render .attr sink_placeholder_picture_file_name_____descr sink_placeholder_picture_file_name_____descr_attr_safe s 0 (by omega)
